@@ -229,6 +229,176 @@ example :
     ((exNode.run [.appInstall "browser", .tick, .shutdown, .tick, .tick, .startup, .tick, .tick]).sws.map
         (fun x => (x.op, x.actual, x.auxCd))).drop 1 = [(.running, .good, none)] := by decide
 
+/-! ## 3b. the reveal-to-red scan shares a block with the whole-node scan and must not disturb it -/
+
+/-- the same node with another value on the reveal-to-red countdown -/
+def Node.withRed (n : Node) (r : Int) : Node := { n with redCd := r }
+
+theorem red_powerOn (n : Node) (r : Int) : (n.withRed r).powerOn = n.powerOn.withRed r := by
+  unfold Node.powerOn Node.withRed
+  by_cases h1 : n.startDur ≤ 0
+  · simp only [h1, if_true]; rfl
+  · by_cases h2 : n.power = .off <;> simp only [h1, h2, if_true, if_false]
+
+theorem red_offNow (n : Node) (r : Int) : (n.withRed r).offNow = n.offNow.withRed r := by
+  unfold Node.offNow
+  simp only []
+  by_cases h : n.resetting = true
+  · have h' : (n.withRed r).resetting = true := h
+    simp only [mapSws_resetting, h, h', if_true]
+    exact red_powerOn { (n.mapSws Sw.shutDown) with power := .off, resetting := false } r
+  · have h' : ¬ (n.withRed r).resetting = true := h
+    simp only [mapSws_resetting, h, h', if_false]
+    rfl
+
+theorem red_powerOff (n : Node) (r : Int) : (n.withRed r).powerOff = n.powerOff.withRed r := by
+  unfold Node.powerOff
+  by_cases h1 : n.shutDur ≤ 0
+  · have h1' : (n.withRed r).shutDur ≤ 0 := h1
+    simp only [h1, h1', if_true]; exact red_offNow n r
+  · have h1' : ¬ (n.withRed r).shutDur ≤ 0 := h1
+    by_cases h2 : n.power = .on
+    · have h2' : (n.withRed r).power = .on := h2
+      simp only [h1, h1', h2, h2', if_true, if_false]; rfl
+    · have h2' : ¬ (n.withRed r).power = .on := h2
+      simp only [h1, h1', h2, h2', if_false]
+
+theorem red_bootPhase (n : Node) (r : Int) : (n.withRed r).bootPhase = n.bootPhase.withRed r := by
+  unfold Node.bootPhase
+  by_cases h1 : n.startCd > 0
+  · have h1' : (n.withRed r).startCd > 0 := h1
+    simp only [h1, h1', if_true]; rfl
+  · have h1' : ¬ (n.withRed r).startCd > 0 := h1
+    by_cases h2 : n.power = .booting
+    · have h2' : (n.withRed r).power = .booting := h2
+      simp only [h1, h1', h2, h2', if_true, if_false]; rfl
+    · have h2' : ¬ (n.withRed r).power = .booting := h2
+      simp only [h1, h1', h2, h2', if_false]
+
+theorem red_shutPhase (n : Node) (r : Int) : (n.withRed r).shutPhase = n.shutPhase.withRed r := by
+  unfold Node.shutPhase
+  by_cases h1 : n.shutCd > 0
+  · have h1' : (n.withRed r).shutCd > 0 := h1
+    simp only [h1, h1', if_true]; rfl
+  · have h1' : ¬ (n.withRed r).shutCd > 0 := h1
+    by_cases h2 : n.power = .shuttingDown
+    · have h2' : (n.withRed r).power = .shuttingDown := h2
+      simp only [h1, h1', h2, h2', if_true, if_false]; exact red_offNow n r
+    · have h2' : ¬ (n.withRed r).power = .shuttingDown := h2
+      simp only [h1, h1', h2, h2', if_false]
+
+theorem red_powerPhase (n : Node) (r : Int) : (n.withRed r).powerPhase = n.powerPhase.withRed r := by
+  unfold Node.powerPhase; rw [red_bootPhase, red_shutPhase]
+
+theorem red_scanPhase (m : Node) (r : Int) : (m.withRed r).scanPhase = m.scanPhase.withRed r := by
+  unfold Node.scanPhase
+  by_cases h1 : m.scanCd > 0
+  · have h1' : (m.withRed r).scanCd > 0 := h1
+    by_cases h2 : m.scanCd - 1 = 0
+    · have h2' : (m.withRed r).scanCd - 1 = 0 := h2
+      simp only [h1, h1', h2, h2', if_true]; rfl
+    · have h2' : ¬ (m.withRed r).scanCd - 1 = 0 := h2
+      simp only [h1, h1', h2, h2', if_true, if_false]; rfl
+  · have h1' : ¬ (m.withRed r).scanCd > 0 := h1
+    simp only [h1, h1', if_false]
+
+/-- the health-relevant part of a node: everything but the reveal-to-red countdown -/
+def Node.sansRed (n : Node) : Node := { n with redCd := 0 }
+
+theorem sansRed_withRed (n : Node) (r : Int) : (n.withRed r).sansRed = n.sansRed := rfl
+
+theorem redPhase_sansRed (m : Node) : m.redPhase.sansRed = m.sansRed := by
+  unfold Node.redPhase; split <;> rfl
+
+theorem itemPhase_sansRed (m : Node) : m.itemPhase.sansRed = m.sansRed.itemPhase := rfl
+
+/-- **C14 (the reveal-to-red countdown never touches health).** Whatever stands on the reveal-to-red countdown — idle, running,
+completing in this very timestep together with the whole-node scan — every operation leaves the rest of the node (power FSM,
+every software item, folder and file, the node-scan countdown) exactly as it would with any other value on it. -/
+theorem C14_red_scan_independent (n : Node) (r : Int) (op : Op) :
+    ((n.withRed r).apply op).sansRed = (n.apply op).sansRed := by
+  cases op <;> simp only [Node.apply]
+  case tick =>
+    unfold Node.tick
+    simp only []
+    rw [red_powerPhase]
+    by_cases hon : n.powerPhase.power = .on
+    · have hon' : (n.powerPhase.withRed r).power = .on := hon
+      simp only [hon, hon', if_true]
+      rw [red_scanPhase, itemPhase_sansRed, itemPhase_sansRed, redPhase_sansRed, redPhase_sansRed, sansRed_withRed]
+    · have hon' : ¬ (n.powerPhase.withRed r).power = .on := hon
+      simp only [hon, hon', if_false]; rfl
+  case shutdown =>
+    by_cases h : n.power = .on
+    · have h' : (n.withRed r).power = .on := h
+      simp only [h, h', if_true]; rw [red_powerOff]; rfl
+    · have h' : ¬ (n.withRed r).power = .on := h
+      simp only [h, h', if_false]; rfl
+  case startup =>
+    by_cases h : n.power = .off
+    · have h' : (n.withRed r).power = .off := h
+      simp only [h, h', if_true]; rw [red_powerOn]; rfl
+    · have h' : ¬ (n.withRed r).power = .off := h
+      simp only [h, h', if_false]; rfl
+  case reset =>
+    by_cases h : n.power = .on
+    · have h' : (n.withRed r).power = .on := h
+      rw [if_pos h', if_pos h]
+      exact (congrArg Node.sansRed (red_powerOff { n with resetting := true } r)).trans (sansRed_withRed _ r)
+    · have h' : ¬ (n.withRed r).power = .on := h
+      rw [if_neg h', if_neg h]; rfl
+  all_goals
+    by_cases h : n.power = .on
+    · have h' : (n.withRed r).power = .on := h
+      try simp only [h, h', if_true, true_and]
+      first | rfl | (split <;> rfl)
+    · have h' : ¬ (n.withRed r).power = .on := h
+      try simp only [h, h', if_false, false_and]
+      first | rfl | (split <;> rfl)
+
+/-- **C14 (the whole-node scan's fan-out is independent of every other countdown).** `C14_node_scan_fans_out` holds for EVERY
+node state with the scan countdown at 1 — folder scan / restore countdowns, fix, install and restart countdowns arbitrary — and the
+one countdown that shares its `if` block in `apply_timestep`, the reveal-to-red scan, cannot change the result either: the software
+list, the folders and files, the power state and the scan countdown after a timestep are the same for every value `r` on it
+(in particular for `r = 1`: both scans completing in the same timestep — seeded change C14-d ran only one of the two sweeps). -/
+theorem C14_node_scan_fanout_independent (n : Node) (r : Int) :
+    ((n.withRed r).apply .tick).sws = (n.apply .tick).sws ∧ ((n.withRed r).apply .tick).folders = (n.apply .tick).folders ∧
+    ((n.withRed r).apply .tick).scanCd = (n.apply .tick).scanCd ∧ ((n.withRed r).apply .tick).power = (n.apply .tick).power := by
+  have h := C14_red_scan_independent n r .tick
+  have h1 : ((n.withRed r).apply .tick).sansRed.sws = (n.apply .tick).sansRed.sws := by rw [h]
+  have h2 : ((n.withRed r).apply .tick).sansRed.folders = (n.apply .tick).sansRed.folders := by rw [h]
+  have h3 : ((n.withRed r).apply .tick).sansRed.scanCd = (n.apply .tick).sansRed.scanCd := by rw [h]
+  have h4 : ((n.withRed r).apply .tick).sansRed.power = (n.apply .tick).sansRed.power := by rw [h]
+  exact ⟨h1, h2, h3, h4⟩
+
+/-- the reveal-to-red countdown itself: loaded with `node_scan_duration` (no `max(…, 1)`: duration 0 never fires), it moves in a
+timestep iff the node is ON after its power phase -/
+theorem C14_timer_red_scan (n : Node) :
+    ((n.apply .redScan).redCd = if n.power = .on then n.scanDur else n.redCd) ∧
+    ((n.apply .tick).redCd = if n.powerPhase.power = .on ∧ n.powerPhase.redCd > 0 then n.powerPhase.redCd - 1
+      else n.powerPhase.redCd) := by
+  constructor
+  · simp only [Node.apply]; split <;> rfl
+  · simp only [Node.apply, Node.tick]
+    by_cases hon : n.powerPhase.power = .on
+    · simp only [hon, if_true, true_and, Node.itemPhase, Node.mapFolders, Node.mapSws, Node.redPhase]
+      have : n.powerPhase.scanPhase.redCd = n.powerPhase.redCd := by
+        unfold Node.scanPhase; (repeat' split) <;> rfl
+      rw [this]
+      split
+      · rfl
+      · exact this
+    · simp only [hon, if_false, false_and]
+
+/-- both scans requested in the same step with duration 2: they complete in the same timestep, and the whole-node scan still
+updates every visible value (kernel-evaluated) -/
+def exBoth : Node := { exNode.run [.sw false "dns" .compromise, .osScan, .redScan] with scanDur := 2, scanCd := 2, redCd := 2 }
+example :
+    (exBoth.run [.tick, .tick]).sws.map (fun x => x.visible) = [.compromised, .unused] ∧
+    (exBoth.run [.tick, .tick]).folders.map (fun G => G.files.map (fun f => f.visible)) = [[.corrupt, .none]] ∧
+    (exBoth.run [.tick]).scanCd = 1 ∧ (exBoth.run [.tick]).redCd = 1 ∧
+    (exBoth.run [.tick, .tick]).scanCd = 0 ∧ (exBoth.run [.tick, .tick]).redCd = 0 := by decide
+
 /-! ## 4. a folder's ACTUAL health changes only through explicit events and their timed completion -/
 
 /-- The explicit events that can write the actual health of folder `G` in step `op`, with the value they write: the `corrupt`,
